@@ -343,7 +343,55 @@ func ZZC13Pairs() {
 	v.Reach("C13/pairs")
 }
 
+// ZZC13Str: a document string written with escape sequences gets the verdict of the plain spelling
+// of the same value, under length rules with symbolic parameters, an enum and a constant.
+func ZZC13Str() {
+	var rules []byte
+	switch v.Choose(0, 4) {
+	case 0:
+		rules = cat(bs("minLength: "), uintLit())
+	case 1:
+		rules = cat(bs("maxLength: "), uintLit())
+	case 2:
+		rules = cat(bs("minLength: "), uintLit(), bs(", maxLength: "), uintLit())
+	case 3:
+		rules = bs(`enum: ["a/b", "ab", "a\"", "/"]`)
+	default:
+		rules = bs("const: true")
+	}
+	schema := cat(bs(`"a/b" // {`), rules, bs("}"))
+	v.Observe("schema", schema)
+	s := jschema.New("s", schema)
+	v.Assume(s.Check() == nil)
+	n := v.Choose(1, v.Param("pieces", 3))
+	lit, plain := []byte{'"'}, []byte{'"'}
+	for i := 0; i < n; i++ {
+		var dec []byte
+		lit, dec = strPiece(lit, nil, v.Choose(0, 5))
+		switch c := dec[0]; {
+		case c == '"' || c == '\\':
+			plain = append(plain, '\\', c)
+		case c == '\n':
+			plain = append(plain, '\\', 'n')
+		default:
+			plain = append(plain, c)
+		}
+	}
+	lit, plain = append(lit, '"'), append(plain, '"')
+	v.Observe("plain", plain)
+	v.Observe("escaped", lit)
+	r1 := s.Validate(json.New("d", plain))
+	r2 := s.Validate(json.New("d", lit))
+	if r1 == nil {
+		v.Reach("C13/str-accepted")
+	} else {
+		v.Reach("C13/str-rejected")
+	}
+	v.Assert((r1 == nil) == (r2 == nil), "C13/validation-verdict-changes-with-document-spelling")
+}
+
 func init() {
+	ZZHarnesses["ZZC13Str"] = ZZC13Str
 	ZZHarnesses["ZZC13Pairs"] = ZZC13Pairs
 	ZZHarnesses["ZZC13Schema"] = ZZC13Schema
 	ZZHarnesses["ZZC13Doc"] = ZZC13Doc
